@@ -1490,6 +1490,9 @@ def _emit_delete_statements(
             and (
                 connection.dialect.supports_sane_multi_rowcount
                 or len(del_objects) == 1
+                # versioned rows were deleted one statement at a time above
+                # on such dialects; the summed count is reliable
+                or need_version_id
             )
         ):
             # TODO: why does this "only warn" if versioning is turned off,
